@@ -59,6 +59,8 @@ fn main() {
         filter: arg(&args, "--filter"),
         prop: arg(&args, "--prop"),
         no_shadow: args.iter().any(|a| a == "--no-shadow"),
+        sample_mod: arg(&args, "--sample-mod").and_then(|s| s.parse().ok()),
+        flags: args.clone(),
     };
     let t0 = std::time::Instant::now();
     let rep = match monitor.as_str() {
@@ -70,6 +72,15 @@ fn main() {
         "names" => monitors::names::run(&ctx),
         "wblock" => monitors::wblock::run(&ctx),
         "zeroize" => monitors::zeroize::run(&ctx),
+        "hazmat" => monitors::hazmat::run(&ctx),
+        "total" => monitors::total::run(&ctx),
+        "xconfig" => monitors::xconfig::run(&ctx),
+        "convert" => monitors::kat::run_convert(&ctx),
+        "bcrypt" => monitors::bcrypt::run(&ctx),
+        "history" => monitors::history::run_history(&ctx),
+        "threads" => monitors::history::run_threads(&ctx),
+        "firstuse" => monitors::history::run_firstuse(&ctx),
+        "firstuse-child" => std::process::exit(monitors::history::firstuse_child(&args)),
         "dump-names" => {
             for t in registry::types() {
                 let k = vec![0x42u8; if (t.accepts)(t.key_size) { t.key_size } else { (0..400).find(|l| (t.accepts)(*l)).unwrap_or(0) }];
